@@ -17,6 +17,15 @@ Definition ex_pca_epsm : Q := 1 # 4503599627370496.
 
 Ltac four i := destruct i as [|[|[|[|i]]]]; [| | | |lia].
 
+Definition ex_pca_run_ok : bool :=
+  match pca_small ex_pca_sq ex_pca_eig ex_pca_epsm 5 ex_pca_data with
+  | (V, ev, met) =>
+    forallb (fun v => Qeq_bool (ex_pca_sq v * ex_pca_sq v) v) met &&
+    forallb (fun j => forallb (fun k => Qeq_bool (V j k) (delta j k)) (seq 0 4)) (seq 0 5)
+  end.
+Lemma ex_pca_run : ex_pca_run_ok = true.
+Proof. vm_compute. reflexivity. Qed.
+
 Lemma ex_pca_hypotheses :
   let l := nelems ex_pca_data in
   let M := ss_gram 5 l (count ex_pca_data) (cen 5 ex_pca_data) in
@@ -30,13 +39,16 @@ Lemma ex_pca_hypotheses :
 Proof.
   cbv zeta. change (nelems ex_pca_data) with 4%nat.
   split; [lia|]. split; [lia|]. split; [vm_compute; discriminate|]. split; [|split].
-  - unfold eig_contract. repeat split.
+  - unfold eig_contract. cbn [ex_pca_eig fst snd]. repeat split.
     + intros i k Hi Hk. four i; four k; vm_compute; reflexivity.
     + intros a b Ha Hb. four a; four b; vm_compute; reflexivity.
     + intros i a Hi Ha. four i; four a; vm_compute; reflexivity.
     + intros i Hi. destruct i as [|[|[|i]]]; [| | |lia]; vm_compute; discriminate.
-  - intros i Hi. four i; intros H; try (vm_compute; reflexivity); exfalso; revert H; vm_compute; intros H; apply H; reflexivity.
-  - vm_compute. split.
-    + repeat constructor.
-    + intros j k Hj Hk. destruct j as [|[|[|[|[|j]]]]]; [| | | | |lia]; four k; reflexivity.
+  - cbn [ex_pca_eig fst snd]. intros i Hi. four i; intros H; try (vm_compute; reflexivity); exfalso; revert H; vm_compute; intros H; apply H; reflexivity.
+  - pose proof ex_pca_run as H. unfold ex_pca_run_ok in H.
+    destruct (pca_small ex_pca_sq ex_pca_eig ex_pca_epsm 5 ex_pca_data) as [[V ev] met].
+    apply andb_prop in H. destruct H as [H1 H2]. split.
+    + apply Forall_forall. intros v Hv. rewrite forallb_forall in H1. apply Qeq_bool_iff. apply H1. exact Hv.
+    + intros j k Hj Hk. rewrite forallb_forall in H2. specialize (H2 j ltac:(apply in_seq; lia)).
+      rewrite forallb_forall in H2. apply Qeq_bool_iff. apply H2. apply in_seq. lia.
 Qed.
